@@ -106,7 +106,7 @@ OV_RAMAN_EL = {('gnpy.core.elements', 'RamanSolver'): lambda it: _Obj('<ns>', {
     'calculate_stimulated_raman_scattering': _Builtin('srs', lambda it2, a, k: _Obj('<ns>', {
         'loss_profile': _Mat(a[1].fields['ghost_profile'].n, 2, lambda i, j, v=a[1].fields['ghost_profile']: v.at(i))})),
     'calculate_spontaneous_raman_scattering': _Builtin('spont', lambda it2, a, k: a[2].fields['ghost_ase'])})}
-contract('gnpy.core.elements.RamanFiber.propagate', props=['C05', 'C01'], overrides=OV_RAMAN_EL,
+contract('gnpy.core.elements.RamanFiber.propagate', props=['C05', 'C01', 'C03', 'C09'], overrides=OV_RAMAN_EL,
          params={'self': RAMANFIBER, 'spectral_info': SI()}, spec=SPEC_LUMP,
          let={'si': 'spectral_info', 'n': 'NCH(spectral_info)', 'p': 'self.params', 'v': 'self.ghost_profile', 'ase': 'self.ghost_ase',
               'cd': 'self.chromatic_dispersion(spectral_info._frequency)'},
